@@ -12,4 +12,5 @@ let lookup (p : string) : Model.sexp -> Model.sexp =
   | "c19" -> Model.run_c19
   | "c06" -> Model.run_c06
   | "c13" -> Model.run_c13
+  | "c20" -> Model.run_c20
   | _ -> failwith ("unknown property " ^ p)
